@@ -13,6 +13,14 @@ func HarnessC19Skip(api int) {
 		pos := 3 + 2*k
 		s.pkts = append(append(append([][]byte{}, s.pkts[:pos]...), refEncodePacket(m)), s.pkts[pos:]...)
 	}
+	// two byte-identical null packets in a row (padding of a constant-bitrate stream): each one is offered to the skipper
+	null := &mPacket{pid: 0x1fff, hasPayload: true, cc: 0}
+	null.payload = make([]byte, 184)
+	for i := range null.payload {
+		null.payload[i] = 0xff
+	}
+	nb := refEncodePacket(null)
+	s.pkts = append(append(append([][]byte{}, s.pkts[:2]...), nb, nb), s.pkts[2:]...)
 	// a packet without adaptation field right behind packets that carry one (a full-payload PES packet on another PID)
 	full := mkPESPattern(0x101, 170, true, 6)
 	s.add(full, packetize(full, 9, 184, false))
@@ -38,7 +46,7 @@ func HarnessC19Skip(api int) {
 	}
 	dmx := NewDemuxer(vCtx{}, newVReader(s.bytes()), DemuxerOptPacketSize(188), DemuxerOptPacketSkipper(skipper))
 	ref := NewDemuxer(vCtx{}, newVReader(keep), DemuxerOptPacketSize(188))
-	for k := 0; k < 16; k++ {
+	for k := 0; k < 20; k++ {
 		if api == 0 {
 			p, err := dmx.NextPacket()
 			q, err2 := ref.NextPacket()
